@@ -19,7 +19,7 @@ from .core import HarnessError, SimInterrupt, SimModelError, digest_of, jsonable
 from .harness import violation
 from .runner import payload_digest, read_file_checkpoint, run_process
 
-ROUTES = ("bytes", "dict", "path", "resume_from_file")
+ROUTES = ("bytes", "dict", "path", "resume_from_file", "resume_from_file_kwargs")
 
 C11_GROUPS = {
     "schedule": lambda k: k == "h.beta",
@@ -401,7 +401,7 @@ def explore(
             )
             rs = r.summary()
             if "c11" in want:
-                if route == "resume_from_file" and scn["flow"]["backend"] == "flowjax":
+                if route in ("resume_from_file", "resume_from_file_kwargs") and scn["flow"]["backend"] == "flowjax":
                     # deliberate, narrow relaxation: a FlowJax proposal reloaded from HDF5 evaluates the same function through
                     # slightly different float32/float64 promotions (its log_prob agrees to ~1e-7, not bit for bit), so a run
                     # resumed through resume_from_file is compared at 1e-5 instead of bit for bit.  Every other route, and the
